@@ -7,6 +7,8 @@ pub struct DateTimeExt;
 
 impl DateTimeExt {
     pub fn _now_unix_epoch_nanos() -> u128 {
+        #[cfg(rws_verif)]
+        if let Some(nanos) = crate::verif::clock_now() { return nanos; }
         let now = SystemTime::now();
         let nanos = DateTimeExt::_system_time_to_unix_nanos(now);
         nanos
